@@ -145,7 +145,7 @@ Definition item_ok (c : sconn) (it : item) (s : RS.state) : bool :=
   | _ => true
   end.
 
-(* ---------- the two places where the model is known to differ from the RFC ---------- *)
+(* ---------- the places where the model is known to differ from the RFC ---------- *)
 
 (* D1: a PRIORITY frame on an even stream id (an idle stream of the server's own id space,
        RFC 6.3 allows it) is a connection error in the read loop.
@@ -153,10 +153,12 @@ Definition item_ok (c : sconn) (it : item) (s : RS.state) : bool :=
        (RFC 5.1: stream error STREAM_CLOSED); the ring does not record who closed.
    D6: a SETTINGS or GOAWAY frame carrying the id of a recently closed or half-closed stream is
        answered with GOAWAY(STREAM_CLOSED); RFC 6.5/6.8 name PROTOCOL_ERROR.
-   D7: the peer resets a stream whose response still has data queued: sendData runs once more
-       on it, and if the body reader fails right then RST_STREAM(INTERNAL_ERROR) goes out in
-       the same step as the peer's RST_STREAM is processed (RFC 6.4).  Needs send window to be
-       available at that moment, which the flow-control invariant (C06, no stall) excludes. *)
+   D7: the peer resets a stream whose response still has bytes to send: sendData runs once more on it, and if the
+       body reader fails right then RST_STREAM(INTERNAL_ERROR) goes out in the same step as the peer's RST_STREAM
+       is processed (RFC 6.4).  Only when no read bytes are waiting or both send windows are open at that moment:
+       the stream loop leaves no stream in such a state (sendData only stops on a closed window with bytes in hand;
+       the window half is C06_no_stall), but that invariant is not part of this proof, and the bounded search never
+       meets the case. *)
 Definition known_deviation (c : sconn) (s : RS.state) (i : rl_input) : bool :=
   match i with
   | RFrame f =>
@@ -168,7 +170,8 @@ Definition known_deviation (c : sconn) (s : RS.state) (i : rl_input) : bool :=
        match strms_search (sc_strms c) (sf_sid f) with Some st => sstate_eqb (st_state st) SHalfClosed | None => false end)
     | KRst =>
       match strms_search (sc_strms c) (sf_sid f) with
-      | Some st => st_responded st && negb (st_handlerRunning st) && has_more_to_send st
+      | Some st => st_responded st && negb (st_handlerRunning st) && has_more_to_send st &&
+                   (match st_pending st with [] => true | _ => false end || (0 <? zmin (st_window st) (sc_clientWindow c))%Z)
       | None => false
       end
     | KWinUpd =>
@@ -179,15 +182,6 @@ Definition known_deviation (c : sconn) (s : RS.state) (i : rl_input) : bool :=
     | _ => false
     end
   | _ => false
-  end.
-
-(* ---------- the part of the schedule space the theorems cover ---------- *)
-
-(* the request timer (maxRequestTime) is not covered *)
-Definition in_scope (it : item) : bool :=
-  match it with
-  | ILocal LTimer => false
-  | _ => true
   end.
 
 (* ---------- the frames seen on each stream ---------- *)
